@@ -58,8 +58,29 @@ func (c *Ctx) Solve(q *Query, solvers []SolverSpec, dir, tag string, timeoutSec 
 	return SolveText(c.Print(q, false), c.Print(q, true), len(q.Values), solvers, dir, tag, timeoutSec, need)
 }
 
-// SolveText races the solvers on already printed queries (safe to call concurrently).
+// SolveText decides a printed query (safe to call concurrently). With need==1 the first solver is tried alone for a
+// short time (most queries fall within a second); the full portfolio races only on what is left.
 func SolveText(textStd, textCVC string, nvals int, solvers []SolverSpec, dir, tag string, timeoutSec int, need int) Result {
+	if need == 1 && len(solvers) > 1 && timeoutSec > 3 {
+		first := solvers[0]
+		first.Cmd = append([]string{}, first.Cmd...)
+		for i, a := range first.Cmd {
+			if strings.HasPrefix(a, "-T:") {
+				first.Cmd[i] = "-T:3"
+			}
+		}
+		r := solveRace(textStd, textCVC, nvals, []SolverSpec{first}, dir, tag+".q", 3, 1)
+		if r.Status != Unknown {
+			return r
+		}
+		r2 := solveRace(textStd, textCVC, nvals, solvers, dir, tag, timeoutSec, need)
+		r2.Seconds += r.Seconds
+		return r2
+	}
+	return solveRace(textStd, textCVC, nvals, solvers, dir, tag, timeoutSec, need)
+}
+
+func solveRace(textStd, textCVC string, nvals int, solvers []SolverSpec, dir, tag string, timeoutSec int, need int) Result {
 	ctx, cancel := context.WithTimeout(context.Background(), time.Duration(timeoutSec+2)*time.Second)
 	defer cancel()
 	ch := make(chan Result, len(solvers))
